@@ -833,6 +833,27 @@ fn gen_two_class(r: &mut Xo, n: usize, p: usize) -> (Vec<Vec<f64>>, Vec<f64>, St
         })
         .collect();
     let mut kind = layout.to_string();
+    // sometimes put the rows on a lattice that is symmetric about zero: sign-coded features (-1 / +1) or small
+    // integers; kernel values, gradients and decision values are then exact and tie (also exactly at 0)
+    match r.below(12) {
+        0 => {
+            for row in x.iter_mut() {
+                for v in row.iter_mut() {
+                    *v = if *v < 0.0 { -1.0 } else { 1.0 };
+                }
+            }
+            kind.push_str("+sign-coded");
+        }
+        1 => {
+            for row in x.iter_mut() {
+                for v in row.iter_mut() {
+                    *v = (*v / scale).round().max(-3.0).min(3.0) + 0.0;
+                }
+            }
+            kind.push_str("+integer-lattice");
+        }
+        _ => {}
+    }
     if p > 1 && r.chance(0.08) {
         // a constant feature
         let col = r.below(p as u64) as usize;
